@@ -30,7 +30,7 @@ MASKED = "storage::MaskedStorage<"
 
 
 def configs(tier):
-    return ["A"] if tier == "quick" else ["A", "F", "N", "FN"]
+    return ["A", "N"] if tier == "quick" else ["A", "F", "N", "FN"]   # N: three independent seeds (C01-g2, C10-g2, C17-g2) hid a defect in a cfg(not(parallel)) twin
 
 
 def run(ctx):
